@@ -144,6 +144,89 @@ theorem same_object_pair {H : Type} (st : Store H) (hw : Wf st) (hd : DisjointId
     getSettings st c₁ = some (st, e) ∧ getSettings st c₂ = some (st, e) :=
   ⟨same_object_of_disjoint st hw hd c₁ e he h₁ s₁, same_object_of_disjoint st hw hd c₂ e he h₂ s₂⟩
 
+/-! ## The callers: look up, then apply (`pyatv.scan`, `pyatv.connect`) -/
+
+/-- what `BaseConfig.apply` puts on a configuration: every service keeps its own credentials /
+    password unless the settings object carries a (non-empty) value for that protocol -/
+theorem apply_source (s : Settings) (c : Cfg) (ps : Proto × Svc) (h : ps ∈ applyTo s c) :
+    ∃ ps0 ∈ c, ps.1 = ps0.1 ∧ ps.2.ident = ps0.2.ident ∧
+      (ps.2.cred = ps0.2.cred ∨ ∃ v, s (.cred ps.1) = .str v ∧ ps.2.cred = some v) ∧
+      (ps.2.pw = ps0.2.pw ∨ ∃ v, s (.pw ps.1) = .str v ∧ ps.2.pw = some v) := by
+  simp only [applyTo, List.mem_map] at h
+  obtain ⟨ps0, hmem, rfl⟩ := h
+  refine ⟨ps0, hmem, rfl, rfl, ?_, ?_⟩
+  · cases hv : s (.cred ps0.1) with
+    | none => left; simp [strOf, hv]
+    | int n => left; simp [strOf, hv]
+    | str v =>
+      by_cases he : v = ""
+      · left; simp [strOf, hv, he]
+      · right; exact ⟨v, rfl, by simp [strOf, hv, he]⟩
+  · cases hv : s (.pw ps0.1) with
+    | none => left; simp [strOf, hv]
+    | int n => left; simp [strOf, hv]
+    | str v =>
+      by_cases he : v = ""
+      · left; simp [strOf, hv, he]
+      · right; exact ⟨v, rfl, by simp [strOf, hv, he]⟩
+
+/-- one step of `scan()` / the start of `connect()`: look the configuration up, apply what
+    the storage returned -/
+def lookupApply {H : Type} (st : Store H) (c : Cfg) : Option (Store H × Cfg) :=
+  (getSettings st c).map fun r => (r.1, applyTo r.2.2 c)
+
+/-- **C14, credentials saved for one device are never applied to another.**  Whatever
+    look-up-then-apply puts on a configuration beyond what it already carried is a value held by
+    ONE entry `e` of the storage, and `e` either was stored before and shares an identifier with
+    the configuration, or was created just now from this very configuration. -/
+theorem applied_credentials_sound {H : Type} (st st' : Store H) (c c' : Cfg)
+    (h : lookupApply st c = some (st', c')) :
+    ∃ e ∈ st'.items,
+      ((e ∈ st.items ∧ Shares e.2 (cfgIds c)) ∨ (e.2 = applyCfg c dflt ∧ ∀ x ∈ st.items, ¬ Shares x.2 (cfgIds c))) ∧
+      ∀ ps ∈ c', ∃ ps0 ∈ c, ps.1 = ps0.1 ∧
+        (ps.2.cred = ps0.2.cred ∨ ∃ v, e.2 (.cred ps.1) = .str v ∧ ps.2.cred = some v) ∧
+        (ps.2.pw = ps0.2.pw ∨ ∃ v, e.2 (.pw ps.1) = .str v ∧ ps.2.pw = some v) := by
+  simp only [lookupApply, Option.map_eq_some_iff] at h
+  obtain ⟨⟨st1, e⟩, hg, heq⟩ := h
+  simp only [Prod.mk.injEq] at heq
+  obtain ⟨rfl, rfl⟩ := heq
+  obtain ⟨hmem, hcase⟩ := lookup_sound st st1 c e hg
+  refine ⟨e, hmem, ?_, ?_⟩
+  · rcases hcase with ⟨h1, h2, _⟩ | ⟨h1, _, _, h4, _⟩
+    · exact Or.inl ⟨h1, h2⟩
+    · exact Or.inr ⟨by rw [h1], h4⟩
+  · intro ps hps
+    obtain ⟨ps0, hm, h1, _, h3, h4⟩ := apply_source e.2 c ps hps
+    exact ⟨ps0, hm, h1, h3, h4⟩
+
+/-- the look-ups of a whole scan (kept configurations in discovery order) -/
+def scanAll {H : Type} : Store H → List Cfg → Store H × List Cfg
+  | st, [] => (st, [])
+  | st, c :: cs =>
+    match lookupApply st c with
+    | none => let r := scanAll st cs; (r.1, c :: r.2)
+    | some (st', c') => let r := scanAll st' cs; (r.1, c' :: r.2)
+
+/-- a scan returns one configuration per kept device, in order, each with its own services -/
+theorem scanAll_shape {H : Type} (cs : List Cfg) : ∀ st : Store H,
+    (scanAll st cs).2.map (fun c => c.map (fun ps => (ps.1, ps.2.ident))) =
+      cs.map (fun c => c.map (fun ps => (ps.1, ps.2.ident))) := by
+  induction cs with
+  | nil => intro st; rfl
+  | cons c cs ih =>
+    intro st
+    simp only [scanAll]
+    cases hl : lookupApply st c with
+    | none => simp [ih]
+    | some r =>
+      obtain ⟨st', c'⟩ := r
+      simp only [List.map_cons, ih, List.cons.injEq, and_true]
+      simp only [lookupApply, Option.map_eq_some_iff] at hl
+      obtain ⟨⟨st1, e⟩, _, heq⟩ := hl
+      simp only [Prod.mk.injEq] at heq
+      rw [← heq.2]
+      simp [applyTo, List.map_map, Function.comp]
+
 /-! ## The invariant over histories -/
 
 section Histories
@@ -661,6 +744,15 @@ example : changed (fun d => d)
       Store (List Dump)) = true := by decide
 
 example : ∀ a b : List Dump, (fun d => d) a = (fun d => d) b → a = b := fun _ _ h => h
+
+/-- hypothesis of `applied_credentials_sound`: a look-up-then-apply that has an answer and
+    really applies a stored credential -/
+example : ∃ st' c', lookupApply stAB cfgA' = some (st', c') := by
+  obtain ⟨_, e, _, _, _, _, h⟩ := lookup_complete stAB cfgA' ⟨_, List.mem_cons_self, "a1", by decide, by decide⟩
+  exact ⟨stAB, applyTo e.2 cfgA', by simp [lookupApply, h]⟩
+
+example : applyTo (applyCfg cfgA dflt) [(.mrp, ⟨some "a0", none, none⟩), (.airplay, ⟨some "zz", some "own", none⟩)]
+    = [(.mrp, ⟨some "a0", some "cred", none⟩), (.airplay, ⟨some "zz", some "own", some "pw"⟩)] := by decide
 
 /-- a bridging configuration shares identifiers with both devices: only
     `lookup_sound` / `lookup_complete` speak about it -/
